@@ -15,6 +15,11 @@
 (*           the downstream keeps its state.  "inflight" = while the          *)
 (*           operation's request is in flight the next source operation, a    *)
 (*           drop of an object of its chain, is handled by another goroutine. *)
+(*           "swapped" = the writer is fed by two independent streams (DDL    *)
+(*           op messages from the replicate channel; create / drop collection *)
+(*           and partition events from the catalog watcher): two consecutive  *)
+(*           source operations of different streams may arrive in the reverse *)
+(*           order of their stamps.                                           *)
 (*                                                                           *)
 (* Design  : tabC / tabD (create / drop time tables), per-kind handlers.     *)
 (* Deviation switches (FALSE = as built):                                    *)
@@ -35,7 +40,10 @@ CONSTANTS MaxT,            \* source clock bound
           UseDefault,
           Kinds,           \* "use" kinds that may be delivered
           WithFail, WithInflight, WithRestart,
+          WithSwap,        \* two consecutive source operations of DIFFERENT input streams are handled in the reverse order
           AlterDbChecked, AlterIdxRecheck, DropGuarded,
+          CreateFromDrop,  \* TRUE = as built: a successful probe records "created right after the known drop";
+                           \* FALSE (negative control): it records the stamp of the probing operation
           TabT             \* part (a): time domain of the decision table
 
 Unk == -1
@@ -147,7 +155,7 @@ WaitOne(x, t, tc, td, dn) ==
     ELSE LET s == CodeState(t, tc[x], td[x]) IN
          IF s # "unknown" THEN [st |-> s, tc |-> tc]
          ELSE IF \A i \in 1..Len(x) : ExistsLevel(Prefix(x, i), dn)
-              THEN [st |-> "created", tc |-> [tc EXCEPT ![x] = (IF td[x] = Unk THEN 0 ELSE td[x]) + 1]]
+              THEN [st |-> "created", tc |-> [tc EXCEPT ![x] = IF CreateFromDrop THEN (IF td[x] = Unk THEN 0 ELSE td[x]) + 1 ELSE t]]
               ELSE [st |-> "unknown", tc |-> tc]
 
 \* WaitObjReady: database, collection, partition in this order
@@ -295,6 +303,32 @@ DeliverInflight ==
                      /\ hist' = Append(hist, StepRec(k, p.o, p.t, FALSE, kq, q.t))
     /\ UNCHANGED <<clock, sb, sd, past>>
 
+\* the input stream an operation arrives on: collection / partition creates and drops are API events of the catalog
+\* watcher, everything else is an op message of the replicate channel
+StreamOf(p) == IF p.cls \in {"create", "drop"} /\ Len(p.o) >= 2 THEN "event" ELSE "msg"
+\* q (stamped later) is handled before p; neither is a drop and q does not depend on what p creates
+DeliverSwapped ==
+    /\ WithSwap
+    /\ Len(hist) + 1 < MaxOps
+    /\ Cardinality(Pending) >= 2
+    /\ LET p == NextOp(Pending)
+           q == NextOp(Pending \ {p})
+       IN /\ StreamOf(p) # StreamOf(q)
+          /\ p.cls # "drop" /\ q.cls # "drop"
+          /\ ~(p.cls = "create" /\ IsUnder(q.o, p.o))
+          /\ \E kq \in KindOf(q), kp \in KindOf(p) :
+               LET rq  == Handle(kq, q.o, q.t, FALSE, tabC, tabD, down)
+                   kdq == KdAfter(kq, q.o, q.t, rq.ok, rq.issued, kd)
+                   rp  == Handle(kp, p.o, p.t, FALSE, rq.tc, rq.td, rq.dn)
+                   kdp == KdAfter(kp, p.o, p.t, rp.ok, rp.issued, kdq)
+               IN /\ tabC' = rp.tc /\ tabD' = rp.td /\ down' = rp.dn /\ kd' = kdp
+                  /\ cursor' = q.t
+                  /\ last' = [op |-> "deliver",
+                              viol |-> Violations(kq, q.o, q.t, kd, kdq, down, rq.ok, rq.issued, rq.executed, rq.stale, FALSE)
+                                       \cup Violations(kp, p.o, p.t, kdq, kdp, rq.dn, rp.ok, rp.issued, rp.executed, rp.stale, FALSE)]
+                  /\ hist' = hist \o <<StepRec(kq, q.o, q.t, FALSE, "", 0), StepRec(kp, p.o, p.t, FALSE, "", 0)>>
+    /\ UNCHANGED <<clock, sb, sd, past>>
+
 \* C15: an entry exactly for the names with a dropped incarnation; strictly below the creation time of a live
 \* namesake, else just below the current time.  Databases: only those gone upstream and still present downstream.
 Snapshot == LET now == clock + 1 IN
@@ -318,7 +352,7 @@ Restart ==
     /\ UNCHANGED <<clock, sb, sd, past, down>>
 
 Next == \/ \E cls \in {"create", "drop", "use"}, o \in Obj : Src(cls, o)
-        \/ Deliver \/ DeliverInflight \/ Restart
+        \/ Deliver \/ DeliverInflight \/ DeliverSwapped \/ Restart
 
 Spec == Init /\ [][Next]_vars
 
